@@ -308,6 +308,43 @@ def significant : List XmlEv → List XmlEv
     else if readsText t then .start t a :: x :: significant rest
     else .start t a :: significant (x :: rest)
 
+/-- "the attribute named `name`": its key is the name, or ends in `:name` (a namespace prefix) -/
+def namesAttr (key name : Bytes) : Bool :=
+  key == name || (decide (key.length > name.length)
+    && key.drop (key.length - name.length - 1) == 0x3A#8 :: name)
+
+/-- the attribute a loader asks an element for -/
+def askedAttr : Tag → Option Bytes
+  | .PDU | .FRAME | .SIGNAL | .CODING | .SIGNAL_INSTANCE | .PDU_INSTANCE => some B_ID
+  | .SIGNAL_REF | .PDU_REF | .CODING_REF => some B_ID_REF
+  | .CODED_TYPE => some B_BASE_DATA_TYPE
+  | _ => none
+
+/-- an element's attributes without those that do not name the asked attribute (`OID`, `UUID`,
+    `xsi:...` and whatever else a file carries); attributes that cannot be read stay (they are
+    errors wherever they stand) -/
+def keepAttr (name : Bytes) : Attr → Bool
+  | .err => true
+  | .ok key _ => namesAttr key name
+
+def askedOnly (t : Tag) (attrs : List Attr) : List Attr :=
+  match askedAttr t with
+  | some name => attrs.filter (keepAttr name)
+  | none => attrs
+
+def plainAttrs : XmlEv → XmlEv
+  | .start t a => .start t (askedOnly t a)
+  | .empty t a => .empty t (askedOnly t a)
+  | e => e
+
+/-- what a loader sees of a file: its significant events (`Spec.significant`: without comments,
+    processing instructions, CDATA, white space and other text outside the text elements, and
+    unknown elements - wherever they stand, also between the children of a PDU, a FRAME or an
+    instance), each element with only the attribute the loader asks it for (`Spec.plainAttrs`:
+    `ID`, `ID-REF`, `BASE-DATA-TYPE`, also under a namespace prefix; `OID`, `UUID`, `xsi:...`
+    and whatever else a file carries are dropped) -/
+def seen (evs : List XmlEv) : List XmlEv := significant (evs.map plainAttrs)
+
 -- documents the layout above can express ----------------------------------------------
 
 /-- an optional text element is only written for a non-empty text -/
